@@ -24,6 +24,8 @@ pub struct MockStream<const SECURE: bool> {
     inner: DuplexStream,
     local: SocketAddr,
     peer: SocketAddr,
+    /// number of upcoming `poll_write` calls that fail (shared with `PeerConn::write_faults`)
+    write_faults: Arc<AtomicU32>,
 }
 
 impl<const SECURE: bool> AsyncRead for MockStream<SECURE> {
@@ -42,6 +44,14 @@ impl<const SECURE: bool> AsyncWrite for MockStream<SECURE> {
         cx: &mut Context<'_>,
         buf: &[u8],
     ) -> Poll<io::Result<usize>> {
+        if self
+            .write_faults
+            .fetch_update(Ordering::SeqCst, Ordering::SeqCst, |n| n.checked_sub(1))
+            .is_ok()
+        {
+            // transient: nothing is written, the connection stays open and usable
+            return Poll::Ready(Err(io::Error::new(io::ErrorKind::Other, "mock transient write failure")));
+        }
         Pin::new(&mut self.inner).poll_write(cx, buf)
     }
     fn poll_flush(mut self: Pin<&mut Self>, cx: &mut Context<'_>) -> Poll<io::Result<()>> {
@@ -93,6 +103,9 @@ pub struct PeerConn {
     /// set when ezk closed its end (EOF seen by the peer)
     pub eof: Arc<AtomicBool>,
     pub eof_at: Arc<Mutex<Option<u64>>>,
+    /// send-fault plan of this connection: that many upcoming writes of ezk on it fail with a transient
+    /// io::Error (nothing reaches the peer, the connection stays open); 0 = none
+    pub write_faults: Arc<AtomicU32>,
 }
 
 impl PeerConn {
@@ -129,6 +142,7 @@ fn make_pair<const SECURE: bool>(
     let received: Arc<Mutex<Vec<u8>>> = Default::default();
     let eof = Arc::new(AtomicBool::new(false));
     let eof_at: Arc<Mutex<Option<u64>>> = Default::default();
+    let write_faults: Arc<AtomicU32> = Default::default();
     {
         let received = received.clone();
         let eof = eof.clone();
@@ -174,6 +188,7 @@ fn make_pair<const SECURE: bool>(
             inner: a,
             local: ezk_addr,
             peer: peer_addr,
+            write_faults: write_faults.clone(),
         },
         PeerConn {
             id,
@@ -184,6 +199,7 @@ fn make_pair<const SECURE: bool>(
             received,
             eof,
             eof_at,
+            write_faults,
         },
     )
 }
